@@ -62,7 +62,7 @@ func devttyRun(tw *trace.Writer, rng *rand.Rand, nops int, cooked int) error {
 			t.Oflag &^= unix.OPOST
 			t.Cc[unix.VMIN], t.Cc[unix.VTIME] = 4, 2
 		}
-		unix.IoctlSetTermios(int(p.Master.Fd()), unix.TCSETS, t)
+		p.SetTermios(t)
 	}
 	tty, err := p.Tty()
 	if err != nil {
